@@ -695,3 +695,145 @@ Proof.
     split; [symmetry; exact (csum_concat_closed _ _ _ F)|].
     intros t Ht Hd. exact (combine_located i es ws [] F t Ht Hd).
 Qed.
+
+(* ================= the TOC is complete: one group of entries per input entry, in order ================= *)
+Definition strip (t : tocent) : N * ttype * N * N * N := (t_id t, t_type t, t_size t, t_coff t, t_csize t).
+
+Fixpoint spec_chunks (e : entry) (first : bool) (cl : list (N * N * N)) : list (N * ttype * N * N * N) :=
+  match cl with
+  | [] => []
+  | (coff, _, csf) :: t =>
+      (e_id e, if first then TReg else TChunk, if first then e_size e else 0, coff, csf) :: spec_chunks e false t
+  end.
+
+(* what the TOC must say about entry [e]: nothing for a dropped entry, one entry for an empty / non-regular one,
+   one "reg" + "chunk"s whose ranges are [chunks (chunk size) (file size)] otherwise *)
+Definition toc_spec (o : wopts) (e : entry) : list (N * ttype * N * N * N) :=
+  match e_kind e with
+  | KToc | KBad => []
+  | k => if 0 <? data_size e then spec_chunks e true (chunks (eff_chunk o) (data_size e))
+         else [(e_id e, match k with KReg => TReg | _ => TOther end, data_size e, 0, 0)]
+  end.
+
+Definition tx (s s' : wst) (l : list (N * ttype * N * N * N)) : Prop := map strip (w_toc s') = map strip (w_toc s) ++ l.
+
+Lemma tx_same : forall s s', w_toc s' = w_toc s -> tx s s' [].
+Proof. intros s s' H. unfold tx. rewrite H, app_nil_r. reflexivity. Qed.
+
+Lemma tx_trans : forall s1 s2 s3 a b, tx s1 s2 a -> tx s2 s3 b -> tx s1 s3 (a ++ b).
+Proof. unfold tx. intros s1 s2 s3 a b H1 H2. rewrite H2, H1, app_assoc. reflexivity. Qed.
+
+Lemma toc_close : forall s s', close_member s = Ok s' -> w_toc s' = w_toc s.
+Proof.
+  intros s s' H. unfold close_member in H. destruct (w_cur s); [destruct (w_cs s); [discriminate|]|]; injection H as <-; reflexivity.
+Qed.
+
+Lemma toc_observe : forall s s', observe_flush s = Ok s' -> w_toc s' = w_toc s.
+Proof. intros s s' H. unfold observe_flush in H. destruct (w_fs s); [discriminate|]. injection H as <-. reflexivity. Qed.
+
+Lemma toc_cond_open : forall s, w_toc (cond_open s) = w_toc s.
+Proof. intros s. unfold cond_open. destruct (w_cur s); reflexivity. Qed.
+
+Lemma tx_do_chunk : forall i o e first s c s', do_chunk i o e first s c = Ok s' ->
+  tx s s' [(e_id e, if first then TReg else TChunk, if first then e_size e else 0, fst (fst c), snd c)].
+Proof.
+  intros i o e first s [[coff clen] csf] s' H. unfold do_chunk in H. unfold tx. simpl.
+  destruct (o_min o <=? 0)%Z.
+  - simpl in H. destruct (close_member s) as [s2| |] eqn:C; try discriminate. simpl in H. injection H as <-.
+    simpl. rewrite map_app, toc_cond_open. simpl. rewrite (toc_close _ _ C). reflexivity.
+  - destruct (observe_flush s) as [s1| |] eqn:O; try discriminate. simpl in H.
+    destruct (first && e_open e || (o_min o <=? Z.of_N (w_cwn s1) - Z.of_N (w_poff s1))%Z).
+    + destruct (close_member s1) as [s2| |] eqn:C; try discriminate. simpl in H. injection H as <-.
+      simpl. rewrite map_app, toc_cond_open. simpl. rewrite (toc_close _ _ C), (toc_observe _ _ O). reflexivity.
+    + simpl in H. injection H as <-. simpl. rewrite map_app, toc_cond_open, (toc_observe _ _ O). reflexivity.
+Qed.
+
+Lemma tx_do_chunks : forall i o e cl first s s', do_chunks i o e first s cl = Ok s' -> tx s s' (spec_chunks e first cl).
+Proof.
+  induction cl as [|c cl IH]; intros first s s' H; simpl in H.
+  - injection H as <-. apply tx_same. reflexivity.
+  - destruct (do_chunk i o e first s c) as [s1| |] eqn:D; try discriminate. simpl in H.
+    pose proof (tx_do_chunk _ _ _ _ _ _ _ D) as T1. pose proof (IH _ _ _ H) as T2.
+    destruct c as [[coff clen] csf]. simpl in *. exact (tx_trans _ _ _ _ _ T1 T2).
+Qed.
+
+Lemma tx_step_entry : forall i o s e s', step_entry i o s e = Ok s' -> tx s s' (toc_spec o e).
+Proof.
+  intros i o s e s' H. unfold step_entry in H. unfold toc_spec.
+  destruct (e_kind e) eqn:K.
+  - destruct (0 <? data_size e).
+    + destruct (do_chunks _ _ _ _ _ _) as [s2| |] eqn:D; try discriminate. simpl in H. injection H as <-.
+      apply tx_do_chunks in D. unfold tx in *. simpl in D. rewrite toc_cond_open in D.
+      destruct (0 <? pad512 (data_size e)); exact D.
+    + injection H as <-. unfold tx. simpl. rewrite map_app, toc_cond_open. reflexivity.
+  - destruct (0 <? data_size e) eqn:Z; [unfold data_size in Z; rewrite K in Z; discriminate|].
+    injection H as <-. unfold tx. simpl. rewrite map_app, toc_cond_open. reflexivity.
+  - destruct (o_lossless o); [discriminate|]. injection H as <-. apply tx_same. reflexivity.
+  - discriminate.
+Qed.
+
+Lemma tx_run_entries : forall i o es s s', run_entries i o s es = Ok s' -> tx s s' (flat_map (toc_spec o) es).
+Proof.
+  induction es as [|e es IH]; intros s s' H; simpl in H.
+  - injection H as <-. apply tx_same. reflexivity.
+  - destruct (step_entry i o s e) as [s1| |] eqn:S; try discriminate. simpl in H.
+    simpl. exact (tx_trans _ _ _ _ _ (tx_step_entry _ _ _ _ _ S) (IH _ _ H)).
+Qed.
+
+Lemma writer_toc_complete : forall i o tlen es cs fs w, run_writer i o tlen es cs fs = Ok w ->
+  map strip (w_toc w) = flat_map (toc_spec o) es.
+Proof.
+  intros i o tlen es cs fs w H. unfold run_writer, append_tar in H.
+  destruct (run_entries i o (init_w cs fs) es) as [s1| |] eqn:R; try discriminate. simpl in H.
+  apply tx_run_entries in R. unfold tx in R. simpl in R. rewrite (toc_close _ _ H).
+  destruct (o_lossless o && (0 <? tlen)); exact R.
+Qed.
+
+Lemma strip_shift : forall d t, strip (shift d t) = strip t.
+Proof. intros d t. unfold shift. destruct (is_data t); reflexivity. Qed.
+
+Lemma parts_toc_complete : forall i o parts cs fs ws d, run_parts i o parts cs fs = Ok ws ->
+  map strip (combine_toc ws d) = flat_map (toc_spec o) (concat parts).
+Proof.
+  induction parts as [|p ps IH]; intros cs fs ws d H; simpl in H.
+  - injection H as <-. reflexivity.
+  - destruct (run_writer i o 0 p cs fs) as [w| |] eqn:R; try discriminate. simpl in H.
+    destruct (run_parts i o ps (w_cs w) (w_fs w)) as [ws'| |] eqn:R'; try discriminate. simpl in H. injection H as <-.
+    simpl. rewrite map_app, map_map, flat_map_app, (IH _ _ _ _ R').
+    f_equal. rewrite <- (writer_toc_complete _ _ _ _ _ _ _ R). apply map_ext. intros t. apply strip_shift.
+Qed.
+
+Lemma build_toc_complete : forall i m chunk minc tlen es cs fs b,
+  build_blob i m chunk minc tlen es cs fs = Ok b ->
+  map strip (b_toc b) = flat_map (toc_spec (mkO chunk minc match m with MLossless => true | _ => false end)) es.
+Proof.
+  intros i m chunk minc tlen es cs fs b H. destruct m as [| |k]; simpl in H.
+  - destruct (run_writer _ _ _ _ _ _) as [w| |] eqn:R; try discriminate. injection H as <-. simpl.
+    exact (writer_toc_complete _ _ _ _ _ _ _ R).
+  - destruct (run_writer _ _ _ _ _ _) as [w| |] eqn:R; try discriminate. injection H as <-. simpl.
+    exact (writer_toc_complete _ _ _ _ _ _ _ R).
+  - destruct (run_parts _ _ _ _ _) as [ws| |] eqn:R; try discriminate. injection H as <-. simpl.
+    rewrite (parts_toc_complete _ _ _ _ _ _ _ R), workers_parts_concat. reflexivity.
+Qed.
+
+(* the chunk ranges announced for a file tile it: reading them in order gives the file *)
+Lemma spec_chunks_tile : forall i o e, N.of_nat (length (content i e)) = data_size e ->
+  concat (map (chunk_bytes i e) (chunks (eff_chunk o) (data_size e))) = content i e.
+Proof.
+  intros i o e H. rewrite chunks_tile by apply eff_chunk_pos. rewrite <- H, Nat2N.id. apply firstn_all.
+Qed.
+
+(* ================= a concrete instance for the non-vacuity examples ================= *)
+Definition ex_io : io :=
+  mkIO (fun e => repeat 7 (N.to_nat (e_hlen e)))
+       (fun e => repeat (e_id e + 1) (N.to_nat (data_size e)))
+       (fun e => repeat 0 (N.to_nat (pad512 (data_size e))))
+       (repeat 0 1024).
+
+(* a.txt (5 bytes), a directory, the landmark Build inserts, a 1300-byte file, an old stargz.index.json, an empty file *)
+Definition ex_entries : list entry :=
+  [mkE 0 0 KReg 5 512 false false; mkE 1 1 KMeta 0 512 false false; mkE 2 2 KReg 1 512 true true;
+   mkE 3 3 KReg 1300 1536 false false; mkE 4 4 KToc 77 512 false false; mkE 5 5 KReg 0 512 false false].
+
+Lemma ex_wf : Forall (wf_entry ex_io) ex_entries.
+Proof. repeat constructor; vm_compute; reflexivity. Qed.
